@@ -160,7 +160,7 @@ func (o *mOp) coqObs() string {
 	}
 	d := u.App("MS", u.ZU(s.ActiveSeq), u.ZU(s.HighestRetired), u.ZU(s.HighestProbing), u.List(q), u.List(p),
 		u.ZU(uint64(s.Since)), u.ZU(uint64(s.PPC)), u.Opt(s.HasActiveTok, tokNum(s.ActiveTok)), hxs(s.ActiveCID),
-		u.B(s.HandshakeComplete), u.B(s.Closed))
+		u.B(s.HandshakeComplete), u.B(s.Closed), u.ZU(s.AdvertisedLimit))
 	return u.App("MO", u.Z(int64(o.cls)), hxs(o.rcid), u.B(o.flag), u.List(evs), d)
 }
 
@@ -216,6 +216,16 @@ type mgrSession struct {
 	nLimit     int
 	nProbe     int
 	label      string
+	advertised uint64 // what this endpoint told the peer with SetConnectionIDLimit (spec-driven client), else 0
+}
+
+// limit: the number of connection IDs the peer may rely on: what we advertised, which is
+// MaxActiveConnectionIDs unless a spec-driven client advertised more
+func (s *mgrSession) limit() int {
+	if s.advertised > maxActive {
+		return int(s.advertised)
+	}
+	return maxActive
 }
 
 func (c *cidRun) newMgrSession(initial []byte, label string) *mgrSession {
@@ -270,9 +280,10 @@ func (s *mgrSession) do(o *mOp) *mOp {
 	v := s.v
 	switch o.kind {
 	case "add":
-		// known-finding trigger: the frame repeats a sequence number that is in use on a
-		// probing path or equals highestProbingID
-		// (this is exactly the negation of [safe_add] in coq/ConnIDs/Proofs.v)
+		// trigger of the (repaired) finding connids/probing-dup: the frame repeats a sequence
+		// number that is in use on a probing path, or equals highestProbingID / the active number
+		// while highestProbingID is above the active number. Failures in such a case keep the
+		// key prefix probing-dup/ so that a regression is reported under the finding's key.
 		for _, e := range pre.Probing {
 			if e.Seq == o.seq {
 				s.tainted = true
@@ -304,6 +315,7 @@ func (s *mgrSession) do(o *mOp) *mOp {
 		o.flag = v.IsActiveStatelessResetToken(o.tok)
 	case "setlimit":
 		v.SetConnectionIDLimit(o.seq)
+		s.advertised = o.seq
 	}
 	o.evs = v.TakeEvents()
 	o.st = v.State()
@@ -415,16 +427,24 @@ func (s *mgrSession) monitor(pre quic.VerifMgrState, o *mOp) {
 	s.prevHeld = held
 	// Retire Prior To honoured: after a frame that was taken (not answered with RETIRE for
 	// itself), nothing below its Retire Prior To is still held
-	if o.kind == "add" && (o.cls == quic.VerifOK || o.cls == quic.VerifLimitErr) && (held[o.seq] || retNow[o.seq] == 0) {
+	// (a frame that repeats the number of an ID in use on a probing path is a duplicate and is
+	// ignored as a whole, like a reordered frame; its Retire Prior To came with the first copy)
+	probingDup := false
+	for _, e := range pre.Probing {
+		if e.Seq == o.seq {
+			probingDup = true
+		}
+	}
+	if o.kind == "add" && !probingDup && (o.cls == quic.VerifOK || o.cls == quic.VerifLimitErr) && (held[o.seq] || retNow[o.seq] == 0) {
 		for q := range held {
 			if q < o.rpt {
 				s.fail("rpt-not-honoured", fmt.Sprintf("sequence number %d still held after Retire Prior To %d", q, o.rpt))
 			}
 		}
 	}
-	// conflicting contents for a queued sequence number must be refused
+	// conflicting contents for a queued or probing sequence number must be refused
 	if o.kind == "add" {
-		for _, e := range pre.Queue {
+		for _, e := range append(append([]quic.VerifNCID{}, pre.Queue...), pre.Probing...) {
 			if e.Seq == o.seq && (!bytes.Equal(e.CID, o.cid) || e.Tok != o.tok) && o.cls != quic.VerifOtherErr && len(pre.ActiveCID) != 0 {
 				s.fail("conflict-accepted", fmt.Sprintf("conflicting contents for queued sequence number %d gave class %d", o.seq, o.cls))
 			}
@@ -440,12 +460,12 @@ func (s *mgrSession) monitor(pre quic.VerifMgrState, o *mOp) {
 		}
 		if o.cls == quic.VerifLimitErr {
 			s.nLimit++
-			if !s.recv0(o) && peerActive <= maxActive {
-				s.fail("refused-within-limit", fmt.Sprintf("CONNECTION_ID_LIMIT_ERROR although the peer has only %d active IDs (limit %d)", peerActive, maxActive))
+			if !s.recv0(o) && peerActive <= s.limit() {
+				s.fail("refused-within-limit", fmt.Sprintf("CONNECTION_ID_LIMIT_ERROR although the peer has only %d active IDs (advertised limit %d)", peerActive, s.limit()))
 			}
 		}
-		if o.cls == quic.VerifOK && 1+len(st.Queue) > maxActive {
-			s.fail("accepted-beyond-limit", fmt.Sprintf("frame accepted with %d IDs stored (limit %d)", 1+len(st.Queue), maxActive))
+		if o.cls == quic.VerifOK && 1+len(st.Queue) > s.limit() {
+			s.fail("accepted-beyond-limit", fmt.Sprintf("frame accepted with %d IDs stored (advertised limit %d)", 1+len(st.Queue), s.limit()))
 		}
 	}
 	// (d) tokens registered == tokens of the IDs in use; nothing left after Close
@@ -548,7 +568,7 @@ func cidFor(base uint64, seq uint64, variant int) []byte {
 	return b
 }
 
-// mgrWitnesses: scripted histories. W1-W3 reproduce the known finding (a repeated
+// mgrWitnesses: scripted histories. W1-W3b are the witnesses of the repaired finding (a repeated
 // NEW_CONNECTION_ID for a sequence number handed to path probing); W4-W6 are plain
 // boundary histories (limit, Retire Prior To jump, reordering).
 func (c *cidRun) mgrWitnesses() {
@@ -611,15 +631,18 @@ func (c *cidRun) mgrWitnesses() {
 	s.do(add(4, 4)); s.do(add(2, 0)); s.do(add(6, 4)); s.do(add(7, 5))
 	s.do(&mOp{kind: "close"})
 	s.emit()
-	// W8: u_conn_id_manager.go: SetConnectionIDLimit is a no-op, the enforced limit stays MaxActiveConnectionIDs
+	// W8: a spec-driven client that advertised 8: exactly 8 IDs are accepted, the 9th is refused
 	s = c.newMgrSession(init, "W8")
 	s.do(&mOp{kind: "setlimit", seq: 8})
-	var last *mOp
-	for q := uint64(1); q <= maxActive; q++ {
-		last = s.do(add(q, 0))
+	for q := uint64(1); q <= 8; q++ {
+		s.do(add(q, 0))
 	}
-	if last.cls == quic.VerifLimitErr {
-		fmt.Fprintf(c.w, "INFO\tu_conn_id_manager.go: after SetConnectionIDLimit(8) the connection ID number %d is still refused with CONNECTION_ID_LIMIT_ERROR (enforced limit %d; advertised-vs-enforced is property C12)\n", maxActive+1, maxActive)
+	s.emit()
+	// W9: an advertised limit below MaxActiveConnectionIDs does not lower what is stored
+	s = c.newMgrSession(init, "W9")
+	s.do(&mOp{kind: "setlimit", seq: 2})
+	for q := uint64(1); q <= maxActive; q++ {
+		s.do(add(q, 0))
 	}
 	s.emit()
 	// W6: zero-length connection IDs
@@ -649,6 +672,9 @@ func (c *cidRun) mgrCase(r *u.Rng, idx int) {
 	hs := false
 	closed := false
 	tokSet := false
+	if r.Chance(1, 4) { // spec-driven client: the advertised active_connection_id_limit
+		s.do(&mOp{kind: "setlimit", seq: uint64(r.Pick(0, 2, 3, 4, 5, 6, 8, 8, 8))})
+	}
 	peerActive := func() int {
 		k := 0
 		for q := range s.recv {
@@ -658,6 +684,7 @@ func (c *cidRun) mgrCase(r *u.Rng, idx int) {
 		}
 		return k
 	}
+	firstRPT := map[uint64]uint64{} // Retire Prior To of the first transmission of each number
 	mkAdd := func(seq uint64, variant int) *mOp {
 		rpt := uint64(0)
 		switch x := r.Intn(20); {
@@ -679,6 +706,9 @@ func (c *cidRun) mgrCase(r *u.Rng, idx int) {
 			rptMax = rpt
 		}
 		tv := uint64(variant)
+		if _, ok := firstRPT[seq]; !ok {
+			firstRPT[seq] = rpt
+		}
 		return &mOp{kind: "add", seq: seq, rpt: rpt, cid: cidFor(base, seq, variant&1), tok: tokOf(base*1000000 + seq*10 + tv/2)}
 	}
 	for i := 0; i < nops; i++ {
@@ -712,7 +742,7 @@ func (c *cidRun) mgrCase(r *u.Rng, idx int) {
 		}
 		switch {
 		case x < 30: // fresh, in order
-			if !aggressive && peerActive() >= maxActive && r.Chance(9, 10) {
+			if !aggressive && peerActive() >= s.limit() && r.Chance(9, 10) {
 				// an honest peer first makes room with Retire Prior To
 				o := mkAdd(nextSeq, 0)
 				if o.rpt <= rptMax || o.rpt > o.seq {
@@ -748,9 +778,13 @@ func (c *cidRun) mgrCase(r *u.Rng, idx int) {
 				s.do(mkAdd(q, 0))
 				sent = append(sent, q)
 			}
-		case x < 58: // retransmission (same contents)
+		case x < 58: // retransmission (same contents; mostly the identical frame, sometimes a new Retire Prior To)
 			if len(sent) > 0 && dupOK {
-				s.do(mkAdd(sent[r.Intn(len(sent))], 0))
+				o := mkAdd(sent[r.Intn(len(sent))], 0)
+				if first, ok := firstRPT[o.seq]; ok && r.Chance(4, 5) {
+					o.rpt = first
+				}
+				s.do(o)
 			}
 		case x < 61: // conflicting contents for a known sequence number
 			if len(sent) > 0 && dupOK {
@@ -1341,6 +1375,7 @@ type rOp struct {
 	n      int
 	local  bool
 	d      int64
+	size   int // replace: len(connClosePacket); deliver: packet size
 	tok    [16]byte
 	flag   bool
 	rk     int
@@ -1364,7 +1399,7 @@ func (o *rOp) coqOp() string {
 		for i, b := range o.ids {
 			ids[i] = hxs(b)
 		}
-		return u.App("RReplace", u.List(ids), u.B(o.local), u.Z(o.d))
+		return u.App("RReplace", u.List(ids), u.B(o.local), u.Z(o.d), u.Z(int64(o.size)))
 	case "advance":
 		return u.App("RAdvance", u.Z(o.d))
 	case "addtok":
@@ -1372,7 +1407,7 @@ func (o *rOp) coqOp() string {
 	case "remtok":
 		return u.App("RRemTok", tokNum(o.tok))
 	case "deliver":
-		return u.App("RDeliver", hxs(o.cid))
+		return u.App("RDeliver", hxs(o.cid), u.Z(int64(o.size)))
 	}
 	panic("bad rop")
 }
@@ -1398,7 +1433,7 @@ func (o *rOp) human() string {
 	case "remove":
 		return fmt.Sprintf("Remove(%x)", o.cid)
 	case "replace":
-		return fmt.Sprintf("ReplaceWithClosed(%x,local=%v,%dns)", o.ids, o.local, o.d)
+		return fmt.Sprintf("ReplaceWithClosed(%x,local=%v,%dns,close packet %dB)", o.ids, o.local, o.d, o.size)
 	case "advance":
 		return fmt.Sprintf("+%dns", o.d)
 	case "addtok":
@@ -1406,7 +1441,7 @@ func (o *rOp) human() string {
 	case "remtok":
 		return fmt.Sprintf("RemoveResetToken(%x)", o.tok[8:])
 	case "deliver":
-		return fmt.Sprintf("packet(%x)=>kind%d/%d sent%d", o.cid, o.rk, o.ref, o.sent)
+		return fmt.Sprintf("packet(%x,%dB)=>kind%d/%d sent%d", o.cid, o.size, o.rk, o.ref, o.sent)
 	}
 	return o.kind
 }
@@ -1443,6 +1478,8 @@ func (c *cidRun) routeCase(r *u.Rng, idx int) {
 	lastDeadline := map[string]int64{}  // latest now+expiry over all ReplaceWithClosed calls naming the ID
 	liveExpect := map[string]int{}      // ID -> connection, for IDs never named by a ReplaceWithClosed
 	delivered := map[int]int{}          // local stand-in -> packets delivered to it
+	bytesIn, bytesOut, closeLen := map[int]int{}, map[int]int{}, map[int]int{}
+	nLocal := 0
 	nReplace, nDeliver, nExpired := 0, 0, 0
 	nops := r.Range(8, 40)
 	for i := 0; i < nops; i++ {
@@ -1488,7 +1525,12 @@ func (c *cidRun) routeCase(r *u.Rng, idx int) {
 				}
 				seen[string(b)] = true
 			}
-			v.ReplaceWithClosed(o.ids, o.local, o.d)
+			o.size = int(r.Pick(0, 30, 40, 40, 60, 1200))
+			v.ReplaceWithClosed(o.ids, o.local, o.d, o.size)
+			if o.local {
+				closeLen[nLocal] = o.size
+				nLocal++
+			}
 			nReplace++
 			for _, b := range o.ids {
 				everAdded[string(b)], everClosed[string(b)] = true, true
@@ -1512,19 +1554,27 @@ func (c *cidRun) routeCase(r *u.Rng, idx int) {
 			if r.Chance(1, 12) {
 				o.cid = foreign
 			}
-			o.rk, o.ref, o.sent = v.Deliver(o.cid)
+			o.size = int(r.Pick(1, 10, 20, 40, 100, 1200, 1200, 1200))
+			o.rk, o.ref, o.sent = v.Deliver(o.cid, o.size)
 			nDeliver++
-			// back-off of the stand-ins: CONNECTION_CLOSE again for packet 1, 2, 4, 8, ... only
+			// back-off of the stand-ins: CONNECTION_CLOSE again for packet 1, 2, 4, 8, ... only,
+			// and only while all copies together stay within 3x the bytes received (RFC 9000 10.2.1)
 			switch o.rk {
 			case 2:
 				delivered[o.ref]++
+				bytesIn[o.ref] += o.size
 				k := delivered[o.ref]
 				want := 0
-				if k&(k-1) == 0 {
+				if k&(k-1) == 0 && bytesOut[o.ref]+closeLen[o.ref] <= 3*bytesIn[o.ref] {
 					want = 1
+					bytesOut[o.ref] += closeLen[o.ref]
 				}
 				if o.sent != want {
-					fail("backoff", fmt.Sprintf("packet %d for a locally closed connection queued %d CONNECTION_CLOSE copies, want %d", k, o.sent, want))
+					fail("backoff", fmt.Sprintf("packet %d (%d bytes received, %d sent, close packet %d bytes) for a locally closed connection queued %d CONNECTION_CLOSE copies, want %d",
+						k, bytesIn[o.ref], bytesOut[o.ref], closeLen[o.ref], o.sent, want))
+				}
+				if bytesOut[o.ref] > 3*bytesIn[o.ref] {
+					fail("standin-amplification", "closed connection sent more than 3x the bytes it received")
 				}
 			case 1, 3, 0:
 				if o.sent != 0 {
